@@ -19,7 +19,7 @@ RULE = (
     "histories of 20..400 completed top-level SDK operations (if ctx/cb unary+binary on futures, loop, loop_body, foreach, "
     "enumerate, loop_until, add future/future with and without modulus, measure into array future / implicit array / "
     "register, EPR keep/measure/context operations with and without the Phi+ expectation, loops with registers named by the application) on one connection, one kind repeated or mixed, flush after every k-th "
-    "(k drawn 1..10), nesting up to depth 4; oracle: every operation compiles and flushes (no register exhaustion), the "
+    "(k drawn 1..10), nesting up to depth 4, plus fixed programs of 8..13 nested loops; oracle: every operation compiles and flushes (no register exhaustion), the "
     "C05 differential oracle holds, and the builder's active-register set is empty whenever no operation is open.  "
     "Non-trivial = >=17 completed operations of one kind on one connection; distinct by history hash"
 )
@@ -206,8 +206,24 @@ def check_epr(case) -> Dict[str, Any]:
     return {"done": done}
 
 
+def deep_program(d: int, style: str) -> Dict[str, Any]:
+    """d nested loops (1..2 iterations each) with additions at several levels: one live counter per open loop plus temporaries"""
+    body: List[Any] = [["add", ["elem", 0, 0], 1, None]]
+    for level in range(d):
+        extra = [["add", ["elem", 1, 0], 1, None]] if level % 3 == 0 else []
+        body = [["loop", style, level, 0, 2 if level % 4 == 0 else 1, 1, body + extra]]
+    return {"stmts": [["newarr", 0, [0]], ["newarr", 1, [0, 1]]] + body + [["flush"]], "outcomes": [], "qubits": 3, "meta": {"mode": "deep", "kind": "loop", "ops": 1, "k_flush": 1, "counts": {}}}
+
+
 def shard(ctx: Ctx) -> None:
     stt = ctx.stats
+    if ctx.shard == 0:
+        # nesting close to the register budget (the number of registers needed depends on the nesting depth only)
+        for d in (8, 9, 10, 11, 12, 13):
+            for style in ("ctx", "body"):
+                prog_d = deep_program(d, style)
+                ctx.attempt(prog_d, check, prog_d)
+                stt.case(["deep", d, style], True, ["deep-nesting", f"depth:{d}"])
     n_epr = 12 if ctx.tier == "quick" else 200
 
     def body_epr(case):
